@@ -10,7 +10,8 @@ TAGPOOL = {
     "Z": ["hello world", "a:b:c", " lead", "x"],
     "J": ['{"a":1}', '[1, 2, {"b": [null, true]}]', '{"k": "v w"}', "[]"],
     "H": ["00", "1A2B", "FFFF"],
-    "B": ["c,1,-2", "C,1,255", "i,5", "S,65535", "f,1.5,2", "I,4294967295", "s,-32768,32767"],
+    "B": ["c,1,-2", "C,1,255", "i,5", "S,65535", "f,1.5,2", "I,4294967295", "s,-32768,32767", "s,-1,128", "i,-5,12,32768", "c,-128,127", "i,-1,2147483647",
+          "S,256", "I,65536", "s,-129,0"],
 }
 
 
